@@ -88,12 +88,15 @@ func (t *Teamserver) ListenerStart(ListenerType int, info any) error {
 		// ExtConfig.RoutineFunc = Functions
 		ExtConfig.Teamserver = t
 
-		ExtConfig.Start()
-
 		endpoint.Endpoint = ExtConfig.Config.Endpoint
 		endpoint.Function = ExtConfig.Request
 
-		t.EndpointAdd(endpoint)
+		// two listeners cannot share an endpoint: removing one would take the other's route away
+		if !t.EndpointAdd(endpoint) {
+			return errors.New("endpoint already in use")
+		}
+
+		ExtConfig.Start()
 
 		ListenerConfig = ExtConfig
 		ListenerName = info.(handlers.ExternalConfig).Name
@@ -365,10 +368,12 @@ func (t *Teamserver) ListenerServiceExc2Add(Name, ExEndpoint string, client *ser
 		"client": client,
 	}
 
-	t.EndpointAdd(&Endpoint{
+	if !t.EndpointAdd(&Endpoint{
 		Endpoint: ExtConfig.Config.Endpoint,
 		Function: ExtConfig.Request,
-	})
+	}) {
+		return errors.New("endpoint already in use")
+	}
 
 	// add this exc2 listener to the teamserver listener list
 	t.Listeners = append(t.Listeners, &Listener{
